@@ -142,6 +142,10 @@ LIMIT_RULES = [
     "FREQ=YEARLY;SCALE=HIJRI;BYMONTH=12;BYMONTHDAY=30", "FREQ=MONTHLY;SCALE=HIJRI.IVC;BYMONTHDAY=30,-30", "FREQ=HOURLY;SCALE=HIJRI",
     "FREQ=YEARLY;UNTIL=00000000", "FREQ=DAILY;UNTIL=99991231T235959Z", "FREQ=DAILY;UNTIL=19000101", "FREQ=DAILY;UNTIL=garbage",
 ]
+# numbers beyond what the fields hold: they must not come out as 0 (a step of nothing) or wrap into something small
+LIMIT_RULES += ["FREQ=%s;%s=%d%s" % (f, k, v, x) for f in ("YEARLY", "MONTHLY", "WEEKLY", "DAILY", "HOURLY", "MINUTELY", "SECONDLY")
+                for k in ("INTERVAL", "COUNT") for v in (1 << 32, (1 << 32) + 1, 1 << 33, (1 << 63) - 1, 1 << 63, 1 << 64, 10 ** 20)
+                for x in ("", ";BYDAY=MO")]
 LIMIT_DTSTARTS = ["16000101", "19010101", "19010101T000000Z", "20991231T235959Z", "20991231", "99991231T235959Z", "00010101",
                   "20000229T120000Z", "20000230", "20001301", "20000100", "19700101T000000Z", "21000228", "40950101", "65535"]
 
